@@ -200,9 +200,28 @@ func cmVersion(n int) []byte {
 func (m *chainMachine) bDeployCreate(t *rapid.T) (cmBuilt, bool) {
 	ten := m.tenants()[m.pick(t, "tenant", 3)]
 	dseq := rapid.SampledFrom(cmDSeqs).Draw(t, "dseq")
+	if rapid.IntRange(0, 2).Draw(t, "partnerDSeq") == 0 {
+		// prefer a number whose decimal spelling extends, or is extended by, one this tenant
+		// already uses (escrow ids spell the number in decimal)
+		var cands []uint64
+		for _, d := range m.snap.deployments {
+			if d.DeploymentID.Owner != ten.bech {
+				continue
+			}
+			for _, c := range cmDSeqs {
+				a, b := fmt.Sprint(d.DeploymentID.DSeq), fmt.Sprint(c)
+				if a != b && (strings.HasPrefix(a, b) || strings.HasPrefix(b, a)) {
+					cands = append(cands, c)
+				}
+			}
+		}
+		if len(cands) > 0 {
+			dseq = cands[m.pick(t, "partner", len(cands))]
+		}
+	}
 	id := dtypes.DeploymentID{Owner: ten.bech, DSeq: dseq}
 	spelling := ""
-	if rapid.IntRange(0, 7).Draw(t, "upperCaseOwner") == 0 {
+	if rapid.IntRange(0, 11).Draw(t, "upperCaseOwner") == 0 {
 		// the same account, written in the other spelling bech32 admits
 		id.Owner = strings.ToUpper(ten.bech)
 		spelling = ",owner spelt in upper case"
